@@ -251,9 +251,7 @@ def gain_scale(case):
     name = case["fn"]
     W = np.array(case["W"], dtype=float)
     if name == "community_louvain":
-        if case["objective"] == "modularity":
-            return W.sum() / 2.0
-        return 0.5
+        return 0.5          # every built-in objective matrix is normalised by the total weight (the modularity one since the fix for KF-C07-10)
     if ROUTINES[name] == "sign":
         return 0.5
     return W.sum() / 2.0
